@@ -194,7 +194,7 @@ fn main() {
     "for `_score` sort keys the engine's reported score is used as the key (scores are verified separately), so near-ties cannot cause false order alarms".into(),
     "which documents match is C07/C08's concern: only returned hits are judged".into(),
   ];
-  let n = ctx.n(300, 5000);
+  let n = ctx.n(300, 50_000);
   let quick = ctx.quick();
   ctx.run_cases("idx", n, |rng: &mut Rng, l: &mut Local, scratch| {
     let mut vocab: Vec<String> = gen::WORDS.iter().map(|s| s.to_string()).collect();
